@@ -73,6 +73,11 @@ func findLeadingZeroPubChild(seed []byte, limit int) (uint32, bool) {
 
 func runC04(c *Ctx) {
 	c.DeferredOp = "HDObserve"
+	for n := 0; n < 256; n++ { // the seed generator: every length
+		if c.Thorough() || n <= 70 || n%16 == 0 || n == 255 {
+			c.Call(Event{"op": "GenerateSeed", "n": n})
+		}
+	}
 	c.Conc = true // stateless calls are also replayed from several goroutines at once
 	r := c.Rng
 	// seeds of every length: legal ones give a master key, others the documented error
